@@ -1,7 +1,7 @@
 (* TagUnion.v — executable model of tagged-Union dispatch (property C13).
 
    Sources modelled:
-     parsers.py     UnionParser.__post_init__ (tag_key / auto_assign_tags from extras['config'],
+     parsers.py     UnionParser.__post_init__ (tag_key / auto_assign_tags from extras['config'] or the member's own Meta,
                     tag = meta.tag, else the class __name__ when auto tags are on; tag_to_parser[tag] = parser:
                     a later member with the same tag replaces the earlier one) and UnionParser.__call__
                     (None -> None; exact-type scan of the non-dataclass members; then o[tag_key] -> tag_to_parser;
@@ -14,8 +14,8 @@
                     load_func_for_dataclass: aliases = {tag_key} iff the member has a tag and tag_key is no field
      dumpers.py     cls_asdict: result[tag_key] = tag when meta.tag is truthy
 
-   Field values are JSON-native and travel unchanged (field-level coercions are C01/C04).  Member-level auto_assign_tags is not modelled (the dumper never
-   emits such a tag).  No proofs in this file. *)
+   Field values are JSON-native and travel unchanged (field-level coercions are C01/C04).  Input documents: JDict stands for any dict instance, dict subclasses
+   (OrderedDict, defaultdict, ...) included.  No proofs in this file. *)
 From DW Require Import PyStr.
 
 Inductive jv :=
@@ -31,6 +31,7 @@ Record member := {
   m_cid : N;                (* identity of the class object *)
   m_name : pstr;            (* __name__ *)
   m_tag : option pstr;      (* explicit Meta.tag *)
+  m_auto : bool;            (* auto_assign_tags in the member's OWN Meta *)
   m_fields : list pstr;     (* init fields = keys written by dump / accepted by load *)
   m_defaults : list (pstr * jv);  (* defaults of the fields that have one; the other fields are required *)
   m_catchall : bool;        (* has a CatchAll field with default None *)
@@ -45,11 +46,24 @@ Record uconf := { u_tag_key : pstr; u_auto : bool }.
 
 Definition nonempty (s : pstr) : bool := match s with [] => false | _ => true end.
 
-(* `tag = meta.tag; if not tag and auto_assign_tags: tag = cls.__name__` ; registered `if tag` *)
+(* `tag = meta.tag; if not tag and (auto_assign_tags or meta.auto_assign_tags): tag = cls.__name__`;
+   registered `if tag` (UnionParser.__post_init__ / load_to_union) *)
 Definition eff_tag (c : uconf) (m : member) : option pstr :=
   match m_tag m with
-  | Some t => if nonempty t then Some t else if u_auto c && nonempty (m_name m) then Some (m_name m) else None
-  | None => if u_auto c && nonempty (m_name m) then Some (m_name m) else None
+  | Some t => if nonempty t then Some t
+              else if (u_auto c || m_auto m) && nonempty (m_name m) then Some (m_name m) else None
+  | None => if (u_auto c || m_auto m) && nonempty (m_name m) then Some (m_name m) else None
+  end.
+
+(* The tag the member's dump function emits: meta.tag at the time that function is generated (the first dump of
+   a member instance under the container).  With auto tags on the CONTAINER its dump builds the Union parser first
+   (dumpers.py: `if meta.auto_assign_tags:`); a tag that only the member's own auto_assign_tags would assign exists
+   only if the container's Union parser was built earlier (`built`: an earlier load through the container). *)
+Definition dump_tag (c : uconf) (built : bool) (m : member) : option pstr :=
+  match m_tag m with
+  | Some t => if nonempty t then Some t
+              else if (u_auto c || (built && m_auto m)) && nonempty (m_name m) then Some (m_name m) else None
+  | None => if (u_auto c || (built && m_auto m)) && nonempty (m_name m) then Some (m_name m) else None
   end.
 
 Definition opt_eqb (a : option pstr) (t : pstr) : bool :=
@@ -116,20 +130,20 @@ Inductive err :=
 Inductive res := Ok (v : lv) | Err (e : err).
 
 (* ---- dump ------------------------------------------------------------------ *)
-Definition dump_member (c : uconf) (m : member) (vals : list (pstr * jv)) : jv :=
-  match eff_tag c m with
+Definition dump_member (c : uconf) (built : bool) (m : member) (vals : list (pstr * jv)) : jv :=
+  match dump_tag c built m with
   | Some t => JDict (dict_set (u_tag_key c) (JStr t) vals)
   | None => JDict vals
   end.
 
-Fixpoint dump_lv (c : uconf) (v : lv) : jv :=
+Fixpoint dump_lv (c : uconf) (built : bool) (v : lv) : jv :=
   match v with
   | LNone => JNull
   | LScalar j => j
-  | LInst m vals extra => dump_member c m (vals ++ extra)
-  | LList l => JList (map (dump_lv c) l)
-  | LDict items => JDict (map (fun kv => (fst kv, dump_lv c (snd kv))) items)
-  | LTuple l => JList (map (dump_lv c) l)
+  | LInst m vals extra => dump_member c built m (vals ++ extra)
+  | LList l => JList (map (dump_lv c built) l)
+  | LDict items => JDict (map (fun kv => (fst kv, dump_lv c built (snd kv))) items)
+  | LTuple l => JList (map (dump_lv c built) l)
   end.
 
 (* ---- member loaders ---------------------------------------------------------- *)
@@ -216,10 +230,14 @@ Fixpoint scan_scalars (args : list arg) (o : jv) : option jv :=
   | _ :: r => scan_scalars r o
   end.
 
+Definition has_none (args : list arg) : bool :=
+  existsb (fun a => match a with ANone => true | _ => false end) args.
+
+(* `if o is None and NoneType in self.base_type: return o` *)
 Definition load_union_v0 (c : uconf) (pre : bool) (args : list arg) (o : jv) : res :=
-  match o with
-  | JNull => Ok LNone
-  | _ =>
+  match o, has_none args with
+  | JNull, true => Ok LNone
+  | _, _ =>
     match scan_scalars args o with
     | Some v => Ok (LScalar v)
     | None =>
@@ -253,9 +271,6 @@ Fixpoint fn_member (c : uconf) (name : pstr) (args : list arg) : option member :
                 end
       end
   end.
-
-Definition has_none (args : list arg) : bool :=
-  existsb (fun a => match a with ANone => true | _ => false end) args.
 
 Section V1.
   (* v1 scalar loaders applied to a value of another type (str(o), int(o), ...): a stdlib-level oracle *)
